@@ -74,7 +74,7 @@ def case(rng, alg, n):
 
 
 def generate(rng, tier):
-    reps = 1 if tier == "quick" else 6
+    reps = 2 if tier == "quick" else 25
     for _ in range(reps):
         for n in range(0, 241):
             for alg in (ALG_AUTH, ALG_ENC):
